@@ -874,17 +874,17 @@ Proof.
          (dx * t0 tr + dy * t1 tr, dx * t3 tr + dy * t4 tr).
   assert (Hn : (length (section_ctrl s) - 1 < length (map fst (section_ctrl s)))%nat /\
                (length (section_ctrl s) - 1 < length (map snd (section_ctrl s)))%nat).
-  { rewrite !map_length. clear - Hok. destruct s as [| | |ctrl]; simpl in Hok |- *; lia. }
+  { rewrite !map_length. clear - Hok. destruct s as [| | |ctrl]; simpl in Hok |- *; unfold qpt in *; lia. }
   destruct Hn as [Hn1 Hn2].
   split; [|split].
   - rewrite (E01 Hu). unfold sub_eval01. rewrite Ex, Ey. reflexivity.
   - unfold sub_gradient. rewrite (Cu Hu), Edx, Edy. reflexivity.
   - unfold PX, PY, section_poly. cbn [fst snd].
     repeat split.
-    + rewrite !peval_padd, !peval_pscale, !peval_pbez, Hx, Hy. simpl. ring.
-    + rewrite !peval_padd, !peval_pscale, !peval_pbez, Hx, Hy. simpl. ring.
-    + rewrite !pd_padd, !pd_pscale, pd_const, !pd_pbez by assumption. rewrite Hdx, Hdy. ring.
-    + rewrite !pd_padd, !pd_pscale, pd_const, !pd_pbez by assumption. rewrite Hdx, Hdy. ring.
+    + rewrite !peval_padd, !peval_pscale, !peval_pbez, Hx, Hy. simpl. unfold qpt in *. ring.
+    + rewrite !peval_padd, !peval_pscale, !peval_pbez, Hx, Hy. simpl. unfold qpt in *. ring.
+    + rewrite !pd_padd, !pd_pscale, pd_const, !pd_pbez by assumption. rewrite Hdx, Hdy. unfold qpt in *. ring.
+    + rewrite !pd_padd, !pd_pscale, pd_const, !pd_pbez by assumption. rewrite Hdx, Hdy. unfold qpt in *. ring.
 Qed.
 
 Example gradient_example :
